@@ -391,3 +391,14 @@ func (sn *Snapshot) AllGroups() []string {
 }
 
 var _ = client.ObjectKey{}
+
+// LiveCarriersExcept is LiveCarriers without pod key except.
+func (sn *Snapshot) LiveCarriersExcept(g, except string) []string {
+	var out []string
+	for _, k := range sn.LiveCarriers(g) {
+		if k != except {
+			out = append(out, k)
+		}
+	}
+	return out
+}
